@@ -128,8 +128,8 @@ def _noise_raw(proto, noise, when):
     if not noise or noise == "none":
         return
     shape, at = noise.split("@")
-    if shape == "twin":
-        return          # handled by the GETINFO vector itself
+    if shape in ("twin", "fallback"):
+        return          # handled by the vector itself
     if shape == "split":
         # a multi-line event is half received when the command is issued; the rest arrives before the reply
         proto.dataReceived(SPLIT_EVENT[0 if when == "before" else 1])
@@ -148,6 +148,17 @@ def _noise_raw(proto, noise, when):
 
 def stuff(line):
     return "." + line if line.startswith(".") else line
+
+
+def _fallback(proto, issue):
+    """the request under test is a fallback: it is issued from the error handler of a request Tor has just refused"""
+    try:
+        d0 = proto.queue_command("GETINFO no/such-key")
+        d0.addErrback(issue)
+        proto.dataReceived(b'552 Unrecognized key "no/such-key"\r\n')
+    except Exception:
+        return failure.Failure()
+    return None
 
 
 def _single(fired, key):
@@ -170,11 +181,18 @@ def getinfo_vector(kvs, seg="whole", rng=None, noise="none", api="dict"):
         p.get_info(*[k for k, _, _ in kvs]).addBoth(twin.append)
     else:
         broke = _noise(p, noise, "before")
-    if api == "single" and len(kvs) == 1:
-        p.get_info_single(kvs[0][0]).addBoth(_single(fired, kvs[0][0]))
-    else:
+    if not (api == "single" and len(kvs) == 1):
         api = "dict"
-        p.get_info(*[k for k, _, _ in kvs]).addBoth(fired.append)
+
+    def issue(_=None):
+        if api == "single":
+            p.get_info_single(kvs[0][0]).addBoth(_single(fired, kvs[0][0]))
+        else:
+            p.get_info(*[k for k, _, _ in kvs]).addBoth(fired.append)
+    if noise == "fallback@before":
+        broke = _fallback(p, issue)
+    else:
+        issue()
     if noise != "twin@before":
         broke = broke or _noise(p, noise, "during")
     wire = []
@@ -209,10 +227,15 @@ def getconf_vector(key, unset, vals, seg="whole", rng=None, noise="none", api="d
     p = run.proto
     fired = []
     broke = _noise(p, noise, "before")
-    if api == "single":
-        p.get_conf_single(key).addBoth(_single(fired, key))
+    def issue(_=None):
+        if api == "single":
+            p.get_conf_single(key).addBoth(_single(fired, key))
+        else:
+            p.get_conf(key).addBoth(fired.append)
+    if noise == "fallback@before":
+        broke = broke or _fallback(p, issue)
     else:
-        p.get_conf(key).addBoth(fired.append)
+        issue()
     broke = broke or _noise(p, noise, "during")
     if unset:
         wire = ["250 %s" % key]
